@@ -3,7 +3,7 @@
 from . import jsonmodel as jm
 
 KEY_UNIVERSE = ["a", "b", "", "é", 1, 2, 2.5, None, True, [1], {"x": 1}]
-GROUP_UNIVERSE = ["a", "b", "", "é x", "k\"q", 1, None, "__absent__"]
+GROUP_UNIVERSE = ["a", "b", "", "é x", "k\"q", 1, None, "__absent__", ["a", "b"], ["c"], [], [1, "a", None], {"a": 1}, True]
 
 
 def gen_records(rng, n=None, keys=None, with_arrays=True):
